@@ -242,6 +242,10 @@ static void gen_search(vh_rng_t *rng)
       }
     }
   }
+  if (app_cfg.domains_via == 0 && vh_chance(rng, 1, 3)) {
+    /* the application gave the list (empty lists included): what the system configuration says about it is ignored */
+    app_cfg.sys_search_decoy = 1;
+  }
   if (vh_chance(rng, 1, 6)) {
     app_cfg.flags |= ARES_FLAG_NOSEARCH;
   }
